@@ -178,6 +178,12 @@ def index_output(out):
                 idx['pages']['all-documents.html']['links'].append(html.unescape(m.group(1)))
     # the documents of the two lunr indexes (what a search can find): '<field>/<qualified name>' keys of the field vectors
     import json as _json
+    idx['symlinks'] = {}
+    for base, _dirs, files_ in os.walk(out):
+        for f_ in files_:
+            pth_ = os.path.join(base, f_)
+            if os.path.islink(pth_):
+                idx['symlinks'][os.path.relpath(pth_, out)] = os.readlink(pth_)
     idx['lunr_refs'] = {}
     for f in ('searchindex.json', 'fullsearchindex.json'):
         pth = os.path.join(out, f)
